@@ -398,7 +398,7 @@ pub fn generate_c07(tier: &str, seed: u64, out: &mut Out) {
             }
         }
     }
-    let n = if thorough { 200_000 } else { 8_000 };
+    let n = if thorough { 1_000_000 } else { 8_000 };
     for _ in 0..n {
         let ls = docspec::random_lines(&mut rng, false);
         let text = docspec::render(&ls, rng.chance(85));
